@@ -36,9 +36,8 @@ def check(model: Model, run: Run) -> None:
                        "raised by a read on the stream-level reader itself (which, by lemma L1/L2 checked here too, has not advanced); a "
                        "NotEnougData from any reader derived from an already consumed envelope must be intercepted before it gets there. "
                        "Together with exact consumption this gives: a complete outer TLV yields a message or an error")
-    fi = model.find_method(BASE, "receive")
-    if fi is None:
-        raise AnalysisError("LDAPSession.receive not found")
+    from ..readerrules import receive_anchor
+    fi = receive_anchor(model)
     mr.escapes(fi.qualname, None)
     from ..regions import decode_region
     region = decode_region(model)
